@@ -500,6 +500,7 @@ macro_rules! backend_impl {
             crate::c12::ops::core_ops_impl!(BE);
             crate::c12::ops2::core_ops2_impl!(BE);
             crate::c12::ops3::core_ops3_impl!(BE);
+            crate::c12::ops4::core_ops4_impl!(BE);
 
             pub struct Ops;
             pub static B: Ops = Ops;
@@ -626,6 +627,9 @@ macro_rules! backend_impl {
                 }
 
                 fn core_op(&self, op: &str, shape: &crate::c12::ops::Shape, w: &Window) -> RunResult {
+                    if let Some(r) = ops4::core_op4(op, shape, w) {
+                        return r;
+                    }
                     if let Some(r) = ops3::core_op3(op, shape, w) {
                         return r;
                     }
@@ -636,7 +640,7 @@ macro_rules! backend_impl {
                 }
                 fn core_ops(&self) -> &'static [&'static str] {
                     static ALL: std::sync::OnceLock<Vec<&'static str>> = std::sync::OnceLock::new();
-                    ALL.get_or_init(|| ops::OPS.iter().chain(ops2::OPS2.iter()).chain(ops3::OPS3.iter()).copied().collect())
+                    ALL.get_or_init(|| ops::OPS.iter().chain(ops2::OPS2.iter()).chain(ops3::OPS3.iter()).chain(ops4::OPS4.iter()).copied().collect())
                 }
 
                 fn shared(&self, spec: &SharedSpec, cfg: Option<sched::Config>) -> RunResult {
